@@ -21,7 +21,7 @@ PROPS = {
         cap_quick=1200, cap_thorough=3600,
         bounds="one leaf payload per harness through the arena value source: kind symbolic over {null,bool,integer,negative "
                "integer,float,string}, u64/i64/f64 payload full-width symbolic (no range cut), bool symbolic, string over the table "
-               "['', 'a', U+00E9, U+20AC, U+1F600, 'ab']; answer of the error type symbolic; one harness per target: bool, (), char, "
+               "['', 'a', U+00E9, U+20AC, U+1F600, 'ab', U+00E9 'a']; answer of the error type symbolic; one harness per target: bool, (), char, "
                "String, u8..u128/usize, i8..i128/isize, the 12 NonZero types, f32, f64",
         outside="message TEXT of domain errors (alloc::fmt::format is stubbed: core::fmt is out of reach of CBMC, DESIGN 2.3); "
                 "strings outside the table; value sources other than the arena source (serde_json's number classification is C13)",
@@ -41,7 +41,7 @@ STD_OUT = ("payloads larger or deeper than the skeletons; strings outside the ta
 STD_ASSUME = COMMON_ASSUME + ["stub: alloc::fmt::format returns an empty String (message text not observed)",
                               "object keys pairwise distinct (duplicate keys only in the C12 harnesses)",
                               "the recording error type keeps what it is handed (by construction: a Rec is the set of report ids it was built from)"]
-CAT = "catalogue of 12 hand-written derive inputs (S1..S6, C1, C2, E1..E3, N1) covering rename/rename_all/default/skip/deny_unknown_fields/missing_field_error/try_from/from/map/validate/error=/tag/unit enums"
+CAT = "thorough tier: plus N (default 6, env VERIF_GEN_N) derive inputs generated from VERIF_SEED by tools/gen_catalogue.py with their reference models; catalogue of 12 hand-written derive inputs (S1..S6, C1, C2, E0..E3, N1) covering rename/rename_all/default/skip/deny_unknown_fields/missing_field_error/try_from/from/map/validate/error=/tag/unit enums"
 
 def _p(select, tags, bounds=STD_BOUNDS, outside=STD_OUT, assumptions=STD_ASSUME, **kw):
     d = dict(select=select, tags=tags, bounds=bounds, outside=outside, assumptions=assumptions, cap_quick=2400, cap_thorough=7200)
@@ -49,19 +49,36 @@ def _p(select, tags, bounds=STD_BOUNDS, outside=STD_OUT, assumptions=STD_ASSUME,
     return d
 
 PROPS.update({
-    "C01": _p([r"^c01_"], ["C01:"], bounds=STD_BOUNDS + " Answer script: all 2^10 Continue/Break sequences (symbolic). " + CAT),
-    "C02": _p([r"^c02_"], ["C02:"], bounds=STD_BOUNDS + " Answer script: all-Continue. Oracle: type-directed reference model. " + CAT),
+    "C01": _p([r"^c01_", r"^c12_"], ["C01:"], bounds=STD_BOUNDS + " Answer script: all 2^10 Continue/Break sequences (symbolic). " + CAT),
+    "C02": _p([r"^c02_"], ["C02:"], gen=True, bounds=STD_BOUNDS + " Answer script: all-Continue. Oracle: type-directed reference model. " + CAT),
     "C03": _p([r"^c03_"], ["C03:"], bounds=STD_BOUNDS + " Answer script: Continue^k Break^inf for symbolic k in 0..10, then the keep-going run of the same payload. " + CAT),
     "C04": _p([r"^c04_"], ["C04:"], bounds=STD_BOUNDS + " Answer script free. Locations decoded up to depth 3 and resolved in the arena inside the error type. " + CAT),
     "C06": _p([r"^c06_", r"^c02_[qt]_(vec|arr|tup|opt|box)"], ["C06:"]),
-    "C07": _p([r"^c02_[qt]_(s1|s2|e1|e2|n1)_"], ["C07:"], bounds=STD_BOUNDS + " " + CAT),
-    "C08": _p([r"^c02_[qt]_(s1|s2|s3|s4|s6|e1|e2)_"], ["C08:"], bounds=STD_BOUNDS + " " + CAT),
-    "C09": _p([r"^c02_[qt]_(s1|s2|s3|e1|n1)_"], ["C09:"], bounds=STD_BOUNDS + " " + CAT),
-    "C10": _p([r"^c02_[qt]_(e1|e2|e3)_"], ["C10:"], bounds=STD_BOUNDS + " " + CAT),
+    "C07": _p([r"^c02_[qt]_(s1|s2|e1|e2|n1|g\d+)_"], ["C07:"], gen=True, bounds=STD_BOUNDS + " " + CAT),
+    "C08": _p([r"^c02_[qt]_(s1|s2|s3|s4|s6|e1|e2|g\d+)_"], ["C08:"], gen=True, bounds=STD_BOUNDS + " " + CAT),
+    "C09": _p([r"^c02_[qt]_(s1|s2|s3|e1|n1|g\d+)_"], ["C09:"], gen=True, bounds=STD_BOUNDS + " " + CAT),
+    "C10": _p([r"^c02_[qt]_(e0|e1|e2|e3)_"], ["C10:"], bounds=STD_BOUNDS + " " + CAT),
     "C11": _p([r"^c02_[qt]_(s4|s5|s6|c1|c2)_"], ["C11:"], bounds=STD_BOUNDS + " User-function outcomes (try_from / validate fail or succeed) symbolic. " + CAT),
-    "C12": _p([r"^c12_", r"^c01_"], [], panics=True, bounds=STD_BOUNDS + " Every reachable panic!, unwrap, index, arithmetic-overflow and pointer check of the compiled code is a proof obligation. " + CAT),
+    "C12": _p([r"^c12_", r"^c01_", r"^c05_q_(char|string)"], [], panics=True, bounds=STD_BOUNDS + " Every reachable panic!, unwrap, index, arithmetic-overflow and pointer check of the compiled code is a proof obligation. " + CAT),
 })
 PROPS["C05"]["tags"] = ["C05:"]
 PROPS["C19"]["tags"] = ["C19:"]
 
 PROPS["C16"] = dict(engine="mir")
+
+PROPS["C13"] = _p([r"^c13_"], ["C13:"],
+    bounds="serde_json documents with a FIXED skeleton per harness and symbolic leaf contents: Number::from(any u64), Number::from(any i64), "
+           "Number::from_f64(any finite f64), null, bool, strings over {'', 'a', U+00E9 'b'}; empty array / object and a one-element array for "
+           "kind()/into_value(); one-element array through both conversions (thorough)",
+    outside="arbitrary nesting, wide objects, long strings, serde_json's arbitrary_precision feature; containers with more than one element "
+            "(the library drops iterators over recursive values internally: not finished in 20 min in the probes)",
+    assumptions=COMMON_ASSUME + ["stub: alloc::fmt::format returns an empty String", "values of recursive type are forgotten, not dropped, by the harness"])
+PROPS["C15"] = _p([r"^c15_"], ["C15:"], bounds=STD_BOUNDS + " Two keep-going runs per harness: the payload and the same payload with the members of the root object "
+    "permuted by a symbolic permutation (all 2 / all 6). Targets: S1, S2, S3, S4, E1, E2 of the catalogue and BTreeMap<KeyT,u8> (insert log compared as a multiset).")
+PROPS["C18"] = dict(select=[r"^c18_"], tags=["C18:"], cap_quick=1200, cap_thorough=7200,
+    bounds="received string: a run of one letter ('a', or the 2-byte U+00E9) of symbolic length 0..30 characters; 0..3 candidates, each a run of the same letter of "
+           "symbolic length 0..30; layer 2 (thorough): concrete candidate lists, symbolic received length 0..12, real formatting, output compared byte for byte",
+    outside="strings that are not runs of a single letter: the edit-distance kernel strsim::damerau_levenshtein (a dependency) is replaced by its closed form "
+            "|n-m| on this string family - the kernel itself is trusted; lists longer than 3",
+    assumptions=COMMON_ASSUME + ["stub: strsim::damerau_levenshtein(x^n, x^m) = |n-m| (its true value on the harness' string family)",
+                                 "layer 1 stub: alloc::fmt::format returns a marker (emptiness of the suggestion is observed, not its text)"])
